@@ -131,6 +131,10 @@ theorem nconc_nil_left_refines (y : Val) (ys : List Val) (n1 : Bool) :
   refine run_of_wp _ _ (fun o => o = _) ?_
   cases n1 <;> vc [ListProgs.nconc]
 
+example : run ListProgs.reverse [listArg 0 [1, 2, 3] false] = ⟨some (.ret (.lst ⟨[3, 2, 1], .fresh⟩)), none, []⟩ := by decide
+example : run ListProgs.append [listArg 0 [1] false, listArg 1 [2] false, listArg 2 [3] false] = ⟨some (.ret (.lst ⟨[1, 2, 3], .fresh⟩)), none, []⟩ := by decide
+example : run ListProgs.nconc [listArg 0 [1] false, listArg 1 [2] false] = ⟨some (.ret (.lst ⟨[1, 2], .grown 0⟩)), none, [0]⟩ := by decide
+
 /-! ## struct embedding: which functions run another function's code -/
 
 /-- `rest` runs `cdr`'s Call, `remove` runs `delete`'s (so `Delete.inList` must not write its argument),
